@@ -48,6 +48,26 @@ Theorem C19_monotone : forall A At u q q', (forall x w, dotR (A x) w = dotR x (A
 Proof. exact model_estimates_monotone. Qed.
 Print Assumptions C19_monotone.
 
+(* ... also across the step the repaired code actually takes (a vanishing G u is not taken over: the estimate repeats) *)
+Theorem C19_monotone_step : forall A At u q q', (forall x w, dotR (A x) w = dotR x (At w)) ->
+  rq R 0%R Rplus Rmult Rdiv Reqb' (G A At) u = Some q ->
+  rq R 0%R Rplus Rmult Rdiv Reqb' (G A At) (next_vec R 0%R Rplus Rmult Reqb' (G A At) u) = Some q' -> (q <= q')%R.
+Proof.
+  intros A At u q q' Hadj Hq Hq'. unfold next_vec in Hq'. cbv zeta in Hq'.
+  destruct (Reqb' (dotR (G A At u) (G A At u)) 0%R).
+  - rewrite Hq in Hq'. injection Hq' as <-. apply Rle_refl.
+  - exact (model_estimates_monotone A At u q q' Hadj Hq Hq').
+Qed.
+Print Assumptions C19_monotone_step.
+
+(* no 0/0: with non-zero start vectors the run always ends with estimates (never the nan outcome), for every field, every family of
+   operators, every stopping test and every budget >= 1 - in particular for the zero operator and start vectors in the kernel *)
+Theorem C19_never_nan : forall (F : Type) (f0 : F) (fadd fmul fdiv : F -> F -> F) (feqb close : F -> F -> bool)
+  (Gs : list (list F -> list F)) v0s n, n <> 0%nat -> existsb (fun v => feqb (dot F f0 fadd fmul v v) f0) v0s = false ->
+  exists e t, operator_norm_sq F f0 fadd fmul fdiv feqb close Gs v0s n = PDone e t.
+Proof. exact operator_norm_never_nan. Qed.
+Print Assumptions C19_never_nan.
+
 (* the documented 'upper bound' of LinearOperatorMatrix.operator_norm is not one: block row [I I] (open finding KF-02) *)
 Theorem C19_matrix_bound_refuted : exists x1 x2 : R,
   matrix_norm_sq R 0%R Rplus Rmax [[1; 1]]%R = 1%R /\ (forall y, ((1 * y) * (1 * y) <= 1 * (y * y))%R) /\
@@ -83,6 +103,11 @@ From Coq Require Import QArith.
 Example C19_example_run :
   pnormQ [[[9#1;0#1];[0#1;1#1]]] (0#1) (0#1) [[1#1;1#1]] 3 = (0%nat, [(29525,3281)]%Z, [[(5,1)];[(365,41)];[(29525,3281)]]%Z)
   /\ pnormQ [[[9#1;0#1];[0#1;1#1]]] (0#1) (0#1) [[1024#1;1024#1]] 3 = pnormQ [[[9#1;0#1];[0#1;1#1]]] (0#1) (0#1) [[1#1;1#1]] 3.
+Proof. vm_compute. split; reflexivity. Qed.
+(* zero operator / start vector in the kernel of diag(0,4): the estimates are 0 and stay 0 (before the repair: nan from the second pass on) *)
+Example C19_example_kernel :
+  pnormQ [[[0#1;0#1];[0#1;0#1]]] (0#1) (0#1) [[1#1;1#1]] 3 = (0%nat, [(0,1)]%Z, [[(0,1)];[(0,1)];[(0,1)]]%Z)
+  /\ pnormQ [[[0#1;0#1];[0#1;4#1]]] (0#1) (0#1) [[1#1;0#1]] 2 = (0%nat, [(0,1)]%Z, [[(0,1)];[(0,1)]]%Z).
 Proof. vm_compute. split; reflexivity. Qed.
 Example C19_example_errors :
   pnormQ [[[1#1]]] (0#1) (0#1) [[0#1]] 3 = (2%nat, [], []) /\ pnormQ [[[1#1]]] (0#1) (0#1) [[1#1]] 0 = (3%nat, [], []).
